@@ -32,6 +32,22 @@ def cfg_path(overrides):
     return _cfg_cache[key]
 
 
+def expected_config(overrides):
+    """An independent reading of the layered configuration: the package's default YAML parsed by the harness itself,
+    with exactly the named entries overridden (deep merge).  Used by oracles so that constants leaking from other
+    objects / earlier loads are not silently accepted."""
+    import common
+    d = yaml.safe_load(open(os.path.join(common.REPO, "src", "ethz_snow", "config", "snowConfig_default.yaml")))
+    def deep(a, u):
+        for k, v in (u or {}).items():
+            if isinstance(v, dict) and isinstance(a.get(k), dict):
+                deep(a[k], v)
+            else:
+                a[k] = v
+    deep(d, overrides)
+    return d
+
+
 def arrangement_cfg(arr, extra=None):
     d = {"snowfall_parameters": {"vial_arrangement": arr}}
     if extra:
